@@ -71,6 +71,10 @@ def _plan(draw, max_rows):
     b = draw(_frame(n if draw(st.booleans()) else draw(st.integers(1, max_rows)), "b"))
     b["cols"][0]["kind"] = a["cols"][0]["kind"]
     b["cols"][0]["vals"] = draw(gen.values(a["cols"][0]["kind"], b["n"], mode="tight"))
+    if a["cols"][0]["kind"] == "d" and draw(st.booleans()):
+        # key columns of the same family in different units (dates on one side, timestamps on the other)
+        b["cols"][0]["kind"] = "t"
+        b["cols"][0]["vals"] = [None if v is None else v + "T00:00:00" for v in b["cols"][0]["vals"]]
     if draw(st.integers(0, 19)) == 0:
         # long frames (a thousand rows and more) whose key is already in ascending order: where "nothing to do"
         # shortcuts of sort, unique, filter, slice ... would hand back the receiver's own arrays
@@ -170,6 +174,20 @@ class _ShouldHaveRaised(Exception):
     pass
 
 
+def _stale_group(x, how):
+    """the receiver is grouped by a column that is no longer there: the grouped call may fail, but only group_by may
+    change the grouping (the marker is put back by the caller of bad_call through the snapshot comparison)"""
+    g0 = tuple(x._group_colnames)
+    x._group_colnames = ("column that was removed",)
+    try:
+        return x.aggregate(n=di.count()) if how == "aggregate" else x.modify(zz=lambda d: d.nrow)
+    finally:
+        rewritten = tuple(x._group_colnames) != ("column that was removed",)
+        x._group_colnames = g0
+        if rewritten:
+            raise Violation(f"{how} rewrote the grouping of its receiver (a group column had been removed)")
+
+
 def _grouped_bad(x, bad):
     g = tuple(x._group_colnames)
     try:
@@ -204,8 +222,9 @@ def _call_frame(m, x, y, a):
                  lambda: x.left_join(y, bad), lambda: x.full_join(y, bad), lambda: _grouped_bad(x, bad),
                  lambda: x.filter(np.ones(n + 1, dtype=bool)), lambda: x.modify(new=np.arange(n + 2)), lambda: x.unique(bad),
                  lambda: x.drop_na(bad), lambda: x.cbind(di.DataFrame(zz=np.arange(n + 2))), lambda: x.count(), lambda: x.anti_join(y, bad),
-                 lambda: x.update(di.DataFrame(zz=np.arange(n + 2))), lambda: x.slice(rows=[n + 5])]
-        calls[a % len(calls) if a < 8 else rnd.randrange(len(calls))]()
+                 lambda: x.update(di.DataFrame(zz=np.arange(n + 2))), lambda: x.slice(rows=[n + 5]),
+                 lambda: _stale_group(x, "aggregate"), lambda: _stale_group(x, "modify")]
+        calls[(a * 7 + n + len(names)) % len(calls)]()              # spread over all variants (a is 0 .. 7)
         raise _ShouldHaveRaised()
     if m == "filter_out": return x.filter_out(lambda d: np.array([i % 2 == a % 2 for i in range(d.nrow)], dtype=bool))
     if m == "filter_kv": return x.filter(**{first: x[first][0]}) if n else x.filter(np.array([], dtype=bool))
